@@ -10,7 +10,7 @@ use serde_json::{json, Value};
 pub struct P;
 pub static C18: P = P;
 
-pub const WAYS: [&str; 18] = [
+pub const WAYS: [&str; 20] = [
     "class + user sheet .h{display:none}",
     "style=\"display:none\" (document CSS enabled)",
     "style=\"height:0;overflow:hidden\"",
@@ -29,6 +29,8 @@ pub const WAYS: [&str; 18] = [
     "descendant selector with a compound ancestor: T.w .h{display:none}, T the outermost ancestor's tag, every ancestor carrying class w",
     "NOT hidden: style=\"overflow:hidden\" alone (half of the zero-height idiom)",
     "NOT hidden: style=\"height:0\" alone (half of the zero-height idiom)",
+    "style=\"max-height:0;height:40px;overflow:hidden\" (a later non-zero length of the *other* height property)",
+    "style=\"height:0;max-height:200px;overflow-y:hidden\"",
 ];
 
 #[derive(Serialize, Deserialize)]
@@ -67,6 +69,8 @@ fn mark(d: &[N], p: &[usize], way: usize) -> String {
             1 => attrs.push(("style".into(), "display:none".into())),
             2 => attrs.push(("style".into(), "height:0;overflow:hidden".into())),
             3 => attrs.push(("id".into(), "hh".into())),
+            18 => attrs.push(("style".into(), "max-height:0;height:40px;overflow:hidden".into())),
+            19 => attrs.push(("style".into(), "height:0;max-height:200px;overflow-y:hidden".into())),
             _ => attrs.push(("style".into(), "max-height:0px; overflow-y:hidden".into())),
         }
     }
@@ -176,7 +180,7 @@ fn check(c: &Case, tag: &str, cx: &mut Cx) {
             "as_unit_test": format!("#[test] fn c18_replay() {{ let a = {}.string_from_read({:?}.as_bytes(), {}); let b = {}.string_from_read({:?}.as_bytes(), {}); assert_eq!(a.ok(), b.ok()); }}", cfg.as_rust(), c.marked, c.width, cfg.as_rust(), c.deleted, c.width)}));
     }
     // styles written in the document have no effect unless document CSS is enabled
-    if matches!(c.way, 1 | 2 | 4 | 7) && !c.rich {
+    if matches!(c.way, 1 | 2 | 4 | 7 | 18 | 19) && !c.rich {
         let off = Cfg::plain();
         let x = cx.render(c.marked.as_bytes(), c.width, &off);
         let y = cx.render(c.original.as_bytes(), c.width, &off);
@@ -234,7 +238,7 @@ impl Prop for P {
     fn build(&self, tier: Tier) -> Box<dyn Scope> {
         let docs = block_docs(tier.pick(2, 3), G { tables: true, pre: true, valid_only: true });
         let docs: Vec<Vec<N>> = if tier == Tier::Thorough { docs.into_iter().step_by(2).collect() } else { docs };
-        Box::new(S { docs, widths: tier.pick(vec![1, 2, 3, 4, 5, 6, 8, 10, 14, 20], (1..=24).chain([30, 40, 60, 100]).collect()), ways: tier.pick(vec![0, 1, 2, 3, 4, 8, 9, 11, 12, 13, 14, 15, 16, 17], vec![0, 1, 2, 3, 4, 5, 6, 7, 8, 9, 10, 11, 12, 13, 14, 15, 16, 17]) })
+        Box::new(S { docs, widths: tier.pick(vec![1, 2, 3, 4, 5, 6, 8, 10, 14, 20], (1..=24).chain([30, 40, 60, 100]).collect()), ways: tier.pick(vec![0, 1, 2, 3, 4, 8, 9, 11, 12, 13, 14, 15, 16, 17, 18, 19], (0..20).collect()) })
     }
     fn replay(&self, case: &Value, cx: &mut Cx) {
         let c: Case = serde_json::from_value(case.clone()).expect("C18 case");
